@@ -1,6 +1,6 @@
 (* Properties/C12.v — C12: keys never interfere; the order-preserving codec round-trips.
    This file contains only the property theorems (closed by [exact]) and non-vacuity examples. *)
-From ZV Require Import Common.Bytes Codec.Consts Codec.MemCmp Codec.Keys Codec.RangeOps Codec.Proofs.
+From ZV Require Import Common.Bytes Codec.Consts Codec.MemCmp Codec.Keys Codec.RangeOps Codec.HIndex Codec.Proofs.
 Open Scope N_scope.
 
 (* ---------- (a) the memcomparable codec: byte strings ---------- *)
@@ -337,6 +337,43 @@ Print Assumptions C12_decode_exp_time_key.
 Theorem C12_decode_exp_meta_key : forall dt k, exp_decode_meta_key (exp_encode_meta_key dt k) = Ok (dt, k).
 Proof. exact exp_decode_meta_key_encode. Qed.
 Print Assumptions C12_decode_exp_meta_key.
+
+(* ---------- index keys (hash secondary index) ---------- *)
+
+Theorem C12_hindex_number_roundtrip : forall t n v pk, len16 t -> len16 n -> int64_ok v ->
+  decode_hset_index_number_key (encode_hset_index_number_key t n v pk false) = Ok (t, n, v, pk).
+Proof. exact decode_hset_index_number_key_encode. Qed.
+Print Assumptions C12_hindex_number_roundtrip.
+
+Theorem C12_hindex_string_roundtrip : forall t n v pk, len16 t -> len16 n ->
+  decode_hset_index_string_key (encode_hset_index_string_key t n v pk false) = Ok (t, n, v, pk).
+Proof. exact decode_hset_index_string_key_encode. Qed.
+Print Assumptions C12_hindex_string_roundtrip.
+
+(* entries of one index sort by indexed value, then by primary key *)
+Theorem C12_hindex_number_order : forall t n v pk v' pk', int64_ok v -> int64_ok v' ->
+  bytes_cmp (encode_hset_index_number_key t n v pk false) (encode_hset_index_number_key t n v' pk' false) =
+  match (v ?= v')%Z with Eq => bytes_cmp pk pk' | c => c end.
+Proof. exact hset_index_number_key_order. Qed.
+Print Assumptions C12_hindex_number_order.
+
+Theorem C12_hindex_string_order : forall t n v pk v' pk',
+  bytes_cmp (encode_hset_index_string_key t n v pk false) (encode_hset_index_string_key t n v' pk' false) =
+  match bytes_cmp v v' with Eq => bytes_cmp pk pk' | c => c end.
+Proof. exact hset_index_string_key_order. Qed.
+Print Assumptions C12_hindex_string_order.
+
+(* the (table, index name) prefix is self-delimiting, and a value's [start, stop) range holds exactly its entries *)
+Theorem C12_hindex_prefix_inj : forall t n t' n' x y, len16 t -> len16 n -> len16 t' -> len16 n' ->
+  hindex_prefix t n ++ x = hindex_prefix t' n' ++ y -> t = t' /\ n = n' /\ x = y.
+Proof. exact hindex_prefix_app_inj. Qed.
+Print Assumptions C12_hindex_prefix_inj.
+
+Theorem C12_hindex_value_range : forall t n v v' pk, int64_ok v -> int64_ok v' ->
+  in_range (encode_hset_index_number_key t n v [] false) (encode_hset_index_number_key t n v [] true)
+           (encode_hset_index_number_key t n v' pk false) = true <-> v' = v.
+Proof. exact hset_index_number_value_range. Qed.
+Print Assumptions C12_hindex_value_range.
 
 (* ---------- non-vacuity ---------- *)
 Example C12_ex_bytes : encode_bytes [1; 2; 3] = [1; 2; 3; 0; 0; 0; 0; 0; 250] /\
